@@ -9,14 +9,6 @@
 (***************************************************************************)
 EXTENDS Arrays, TLC
 
-\* utils.find_unused_dimension with string names
-FindUnusedStr(prefix, dims) ==
-  IF prefix \notin dims THEN prefix
-  ELSE LET k == CHOOSE k \in 0..Cardinality(dims) :
-                  /\ (prefix \o "_" \o ToString(k)) \notin dims
-                  /\ \A m \in 0..(k - 1) : (prefix \o "_" \o ToString(m)) \in dims
-       IN prefix \o "_" \o ToString(k)
-
 \* get_grid_kind: the first kind whose dimensions are all dimensions of A
 KindsOf(G, A) == SelectSeq(G.kinds, LAMBDA k : Range1(G.dims[k]) \subseteq Range1(A.dims))
 HasGrid(G, A) == KindsOf(G, A) # <<>>
